@@ -17,7 +17,7 @@ def short(t):
 for e in r['events']:
     if idx is not None and not (idx - width <= e['i'] <= idx + 3):
         continue
-    d = dict(e)
+    d = {"i": e["i"], "e": e["e"], **{k: v for k, v in e.items() if k not in ("i", "e")}}
     for k in ('t', 'b'):
         if k in d: d[k] = short(d[k])
     if 'sync' in d:
